@@ -373,10 +373,18 @@ def run(tier, v):
         "rejecting a configuration the specification accepts does not contradict the statement: it is reported as DRIFT, not as a violation",
         "the coordinator's 'running configuration' is what its (single) subscriber applied last; what it 'reports' is alertmanager_config_hash / alertmanager_config_last_reload_successful",
     ]
+    # the whole program: reloads of a running app.App (good / refused by config.Load / refused at apply time),
+    # status text, API receivers and deliveries judged against spec/AppSys.tla
+    from checks import appcommon
+    coverage["whole_program"] = appcommon.run_app_system(PID, tier, v)
+    assumptions = list(assumptions) + appcommon.ASSUMPTIONS
     return "model_checking", coverage, assumptions
 
 
 def replay(path, v):
+    if "appsys" in os.path.basename(path):
+        from checks import appcommon
+        return appcommon.replay(PID, path, v)
     """Replays one stored artefact: {"yaml": ...} (a document) or a coordinator behaviour (list)."""
     binp = vlib.go_build_test(PID, "c17")
     wd = os.path.join(vlib.OUT, PID)
